@@ -1,8 +1,8 @@
 """C09 - scope completion fires exactly once, after the whole subtree has been left.
 
 Scope trees of up to 5 nodes (async and sync scopes, completion callbacks sync / async / raising; leaf async scopes
-may fail to enter because a disposable raises in __aenter__ - they were constructed under their parent and are left at
-once). Every
+may fail to enter because a disposable raises in __aenter__ - an Exception or a CancelledError, at once or after suspending -
+they were constructed under their parent and are left at once). Every
 non-root node is placed in its parent's task (inline), in a ctx.spawn'ed task, or in a plain
 asyncio.create_task task that is never joined and may outlive the parent - so it may enter its scope before
 or after the parent was left. Every enter and every exit is preceded by a gate; the scheduler enumerates the
@@ -100,7 +100,7 @@ def build(tree: dict[str, Any]) -> list[dict[str, Any]]:
         if (tree.get("fails") or [False] * n)[i] and kinds[i] == "ascope" and not kids[i]:
             # entering this scope fails (a disposable raises in __aenter__, possibly after suspending): the scope was constructed
             # under its parent and is left at once - the parent must still be able to complete
-            b["disposables"] = [{"yield": [], "enter": "gate-raise" if i % 2 else "raise", "exit": "ok"}]
+            b["disposables"] = [{"yield": [], "enter": ("raise", "gate-raise", "raise-cancelled", "gate-raise-cancelled")[(i + n + len(kids[0])) % 4], "exit": "ok"}]
         return b
 
     return [node(0)]
